@@ -128,7 +128,8 @@ def y_scripts(seed, count, reentrant):
     lines, cfgs = [], {}
     hs = ["h1", "h2", "h3", "h4"]
     for n in range(count):
-        sig = rnd.choice(SIGS)
+        # C10 is about re-entrancy, not argument passing or foreign handles (C05): keep those out of its histories
+        sig = rnd.choice(["none", "int"] if reentrant else SIGS)
         xid = "y%s%d" % ("r" if reentrant else "p", n)
         steps = []
         for _ in range(rnd.randrange(20, 100)):
@@ -144,7 +145,7 @@ def y_scripts(seed, count, reentrant):
             elif r < 0.33:
                 steps.append(("UnsubH", h, "", 0, []))
             elif r < 0.43:
-                steps.append(("UnsubS", rnd.choice(hs + ["hf"]), "", 0, []))
+                steps.append(("UnsubS", rnd.choice(hs if reentrant else hs + ["hf"]), "", 0, []))
             elif r < 0.52:
                 steps.append(("Mute", h, "", 0, []))
             elif r < 0.60:
